@@ -12,6 +12,7 @@ import SuxModel.Space.Runner
 import SuxModel.Atomic.Runner
 import SuxModel.Func.Runner
 import SuxModel.Serde.Runner
+import SuxModel.Misc.Runner
 /-!
 # `suxdrv <runner>` : line-protocol driver over the executable model definitions
 -/
@@ -40,7 +41,8 @@ def runners : List (String × Runner) := [
   ("space", Sux.Space.runner),
   ("atomic", Sux.Atomic.runner),
   ("func", Sux.Func.runner),
-  ("serde", Sux.Serde.runner)
+  ("serde", Sux.Serde.runner),
+  ("misc", Sux.Misc.runner)
 ]
 
 def main (args : List String) : IO UInt32 := do
